@@ -23,13 +23,17 @@ pub fn get_tag_as_str<'a>(parent: &'a roxmltree::Node, tag: &str) -> &'a str {
 pub fn get_tag_as_f32(parent: &roxmltree::Node, tag: &str) -> Result<f32, Error> {
     get_tag_as_str(parent, tag)
         .parse::<f32>()
-        .map_err(|_e| format_err!("Error al convertir número"))
+        .ok()
+        .filter(|num| num.is_finite())
+        .ok_or_else(|| format_err!("Error al convertir número"))
 }
 
 /// Devuelve contenido de la etiqueta como f32
 pub fn get_tag_as_f32_or_default(parent: &roxmltree::Node, tag: &str) -> f32 {
     get_tag_as_str(parent, tag)
         .parse::<f32>()
+        .ok()
+        .filter(|num| num.is_finite())
         .unwrap_or_default()
 }
 
